@@ -140,8 +140,9 @@ class Struct:
 
 
 class Chan:
-    def __init__(self, name):
+    def __init__(self, name, cap=None):
         self.name = name
+        self.cap = cap  # None = unbounded (mpsc::channel); n = mpsc::sync_channel(n)
         self.q = []
         self.tx_dropped = False
         self.rx_dropped = False
@@ -175,7 +176,7 @@ class Block:
         self.why, self.ready = why, ready
 
 
-SAFE_BLOCKING = ("Receiver::recv", "Sender::send", "JoinHandle::join", "spawn", "mpsc::channel")
+SAFE_BLOCKING = ("Receiver::recv", "Sender::send", "SyncSender::send", "JoinHandle::join", "spawn", "mpsc::channel", "mpsc::sync_channel")
 TIMING = ("recv_timeout", "try_recv", "recv_deadline", "try_iter", "sleep", "park", "Instant", "SystemTime", "try_send", "is_finished",
           "Mutex", "RwLock", "Atomic", "Condvar", "yield_now", "select")
 
@@ -493,6 +494,9 @@ class Interp:
         if re.search(r"Sender::+send$", g):
             end, v = a[0], a[1]
             ch = end.chan
+            while ch.cap is not None and len(ch.q) >= max(ch.cap, 1) and not ch.rx_dropped:
+                # bounded channel: the sender blocks while the buffer is full (capacity 0 is approximated by 1)
+                yield Block(f"send {ch.name} (full)", lambda ch=ch: len(ch.q) < max(ch.cap, 1) or ch.rx_dropped)
             if ch.rx_dropped:
                 w.log.append(("send", self.tname, ch.name, repr(v), "Err"))
                 return Enum("Err", [v])
@@ -500,6 +504,12 @@ class Interp:
             ch.sent += 1
             w.log.append(("send", self.tname, ch.name, repr(v), "Ok"))
             return Enum("Ok", [()])
+        if g.endswith("mpsc::sync_channel"):
+            if not isinstance(a[0], int):
+                raise Inconclusive("sync_channel with a non-constant bound")
+            ch = Chan(f"chan{len(w.chans)}", cap=a[0])
+            w.chans.append(ch)
+            return (End(ch, "tx"), End(ch, "rx"))
         if g.endswith("mpsc::channel"):
             ch = Chan(f"chan{len(w.chans)}")
             w.chans.append(ch)
